@@ -14,7 +14,9 @@ A_TOK = ['\\begin{e}', '\\end{e}', '\\begin{f}', '\\end{f}', '\\begin{verbatim}'
          '\\begin{equation}', '\\end{equation}', '\\begin{itemize}', '\\end{itemize}', '\\item', '\\x', '\\x{',
          '\\x[', '{a}', '[a]', '{', '}', '[', ']', '$', '$$', '\\(', '\\)', '\\[', '\\]', '\\\\', '\\%', '%', '\n',
          ' ', 'a', '.', '(', '|', '\\left', '\\left(', '\\big.', '\\cup', '\\textbf{', '\\label{', '\\section{',
-         '\\def\\x{', '\\newcommand', '\\begin', '\\end']
+         '\\def\\x{', '\\newcommand', '\\begin', '\\end',
+         # environment names that are not a single word
+         '\\begin{ }', '\\end{ }', '\\begin{\\a }', '\\end{\\a }']
 A_TOK_CORE = ['\\begin{e}', '\\end{e}', '\\end{f}', '\\begin{verbatim}', '\\end{verbatim}', '\\begin{equation}',
               '\\begin{itemize}', '\\end{itemize}', '\\item', '\\x', '\\x{', '\\x[', '{', '}', '[', ']', '$', '$$',
               '\\(', '\\]', '\\\\', '%', '\n', ' ', 'a', '\\left(', '\\textbf{', '\\newcommand', '\\begin', '\\end']
